@@ -95,8 +95,8 @@ MemInsert(st, k, e) ==
       expired == {v \in present : ~Live(t[v])}
       put(v, tnt) == [tab |-> [[t EXCEPT ![v] = Empty] EXCEPT ![k] = e], taint |-> tnt]
       grow    == [tab |-> [t EXCEPT ![k] = e], taint |-> {}]
-      \* repaired: only expired entries go, else the table grows
-      good    == IF expired # {} THEN {put(v, {}) : v \in expired} ELSE {grow}
+      \* repaired: only expired entries go; the table grows when the sample holds live locks only
+      good    == {put(v, {}) : v \in expired} \cup (IF Cardinality(present \ expired) >= m THEN {grow} ELSE {})
       \* as it is: the sampled entry with the earliest expiry goes, live or not
       asIs    == {put(v, IF Live(t[v]) THEN {"evict"} ELSE {}) : v \in codeVictims}
   IN IF n < st.cap THEN {grow}
@@ -185,7 +185,8 @@ RedisGetExStep(st, o) ==                      \* client.IsLockedTTL: GETEX every
                                       !.fl[k] = mine, !.c.ok = c.ok /\ mine,
                                       !.c.gx[k] = IF mine THEN c.ttl ELSE 0, !.c.ks = Tail(@)]
        IN IF ~Live(e) THEN {upd(e.x, {})}
-          ELSE IF ~shortens THEN {upd(c.ttl, {})}
+          ELSE IF mine THEN {upd(c.ttl, {})}
+          ELSE IF ~shortens THEN {upd(c.ttl, {}), upd(e.x, {})}    \* lengthening another owner's TTL: harmless
           ELSE {upd(e.x, {})} \cup (IF AllowForeignShorten THEN {upd(c.ttl, {"shorten"})} ELSE {})
 
 RedisDelStep(st, o) ==                        \* client.Unlock: one DEL of the flagged keys
